@@ -1,4 +1,4 @@
-(* FormatsProofs.v — proofs about the date and uuid format rules of Formats.v (property C02). *)
+(* FormatsProofs.v — proofs about the date, uuid and datetime format rules of Formats.v (property C02). *)
 From Coq Require Import List NArith ZArith Bool Arith Lia.
 From Coq Require Import ZifyBool ZifyNat ZifyN.
 From Coq Require Import Strings.Byte.
@@ -230,3 +230,276 @@ Proof.
       rewrite (firstn_app_exact c [x7d] 36 Lc). rewrite Hc. reflexivity.
     + unfold uuid_ok. cbv zeta. rewrite Hl. cbn [Nat.eqb]. exact Hh.
 Qed.
+
+(* ------------------------------------------------------------------ *)
+(* datetime: the rule of Formats.v is exactly RFC 3339 date-time as stated in FormatsSpec.v *)
+From JS Require Import Text.FormatsSpec.
+
+Lemma bN_eqb_byte : forall c b, N.eqb (bN c) (Byte.to_N b) = true -> c = b.
+Proof. intros c b H. apply N.eqb_eq in H. apply fmt_to_N_inj. exact H. Qed.
+
+(* the model's 2DIGIT reader (Formats.two_digits; [two_digits] here is the arithmetic lemma above) *)
+Lemma two_digits_some : forall a b mx n, Formats.two_digits a b mx = Some n ->
+  (n <= mx)%N /\ [a; b] = two n.
+Proof.
+  intros a b mx n H. unfold Formats.two_digits in H.
+  destruct (is_digit a) eqn:Ea; [|discriminate H].
+  destruct (is_digit b) eqn:Eb; [|discriminate H].
+  cbn [andb] in H. cbv zeta in H.
+  destruct (N.leb (dig a * 10 + dig b) mx) eqn:El; [|discriminate H].
+  injection H as <-.
+  apply is_digit_dig in Ea, Eb. destruct Ea as [La Ea], Eb as [Lb Eb].
+  split; [lia|].
+  destruct (two_digits _ _ La Lb) as (E1 & E2). cbv zeta in E1, E2.
+  unfold two. rewrite E1, E2, <- Ea, <- Eb. reflexivity.
+Qed.
+
+Lemma two_digits_two : forall n mx, (n <= mx)%N -> (mx <= 99)%N ->
+  Formats.two_digits (digit_byte (n / 10)) (digit_byte (n mod 10)) mx = Some n.
+Proof.
+  intros n mx Hn Hm.
+  assert (Ln : (n <= 99)%N) by lia.
+  destruct (two_recompose n Ln) as (A1 & A2 & A3).
+  unfold Formats.two_digits.
+  rewrite !is_digit_digit_byte by assumption.
+  rewrite !dig_digit_byte by assumption.
+  cbn [andb]. cbv zeta. rewrite A3.
+  replace (N.leb n mx) with true by lia. reflexivity.
+Qed.
+
+(* time-offset *)
+Lemma zone_offset_iff : forall z off, zone_offset z = Some off <-> zone_spec z off.
+Proof.
+  intros z off. split.
+  - intro H.
+    destruct z as [|a [|h1 [|h2 [|c [|m1 [|m2 [|g r]]]]]]]; unfold zone_offset in H; cbv beta iota in H;
+      try discriminate H.
+    + destruct (N.eqb (bN a) 90) eqn:E1.
+      * cbn [orb] in H. injection H as <-.
+        apply (bN_eqb_byte a x5a) in E1. subst a. constructor.
+      * destruct (N.eqb (bN a) 122) eqn:E2; cbn [orb] in H; [|discriminate H].
+        injection H as <-. apply (bN_eqb_byte a x7a) in E2. subst a. constructor.
+    + destruct (N.eqb (bN c) 58) eqn:Ec; [|rewrite andb_false_r in H; discriminate H].
+      rewrite andb_true_r in H.
+      apply (bN_eqb_byte c x3a) in Ec. subst c.
+      destruct (Formats.two_digits h1 h2 23) as [oh|] eqn:Eh;
+        [|destruct (N.eqb (bN a) 43 || N.eqb (bN a) 45)%bool; discriminate H].
+      destruct (Formats.two_digits m1 m2 59) as [om|] eqn:Em;
+        [|destruct (N.eqb (bN a) 43 || N.eqb (bN a) 45)%bool; discriminate H].
+      apply two_digits_some in Eh, Em. destruct Eh as [Lh Eh], Em as [Lm Em].
+      change [a; h1; h2; x3a; m1; m2] with ([a] ++ [h1; h2] ++ [x3a] ++ [m1; m2]).
+      rewrite Eh, Em.
+      destruct (N.eqb (bN a) 45) eqn:E45.
+      * rewrite orb_true_r in H. injection H as <-.
+        apply (bN_eqb_byte a x2d) in E45. subst a. constructor; assumption.
+      * rewrite orb_false_r in H.
+        destruct (N.eqb (bN a) 43) eqn:E43; [|discriminate H].
+        injection H as <-.
+        apply (bN_eqb_byte a x2b) in E43. subst a. constructor; assumption.
+  - intro H. destruct H as [| |oh om Hh Hm|oh om Hh Hm].
+    + reflexivity.
+    + reflexivity.
+    + unfold two. cbn [app]. unfold zone_offset. cbv beta iota.
+      rewrite (two_digits_two oh 23 Hh) by lia. rewrite (two_digits_two om 59 Hm) by lia.
+      reflexivity.
+    + unfold two. cbn [app]. unfold zone_offset. cbv beta iota.
+      rewrite (two_digits_two oh 23 Hh) by lia. rewrite (two_digits_two om 59 Hm) by lia.
+      reflexivity.
+Qed.
+
+Lemma zone_spec_head : forall z off, zone_spec z off ->
+  exists c r, z = c :: r /\ is_digit c = false /\ N.eqb (bN c) 46 = false.
+Proof.
+  intros z off H. destruct H; eexists _, _; (split; [reflexivity|split; reflexivity]).
+Qed.
+
+(* time-secfrac *)
+Lemma drop_digits_split : forall r, exists f, all_digits f /\ r = f ++ drop_digits r.
+Proof.
+  induction r as [|c r IH].
+  - exists []. split; [constructor|reflexivity].
+  - cbn [drop_digits]. destruct (is_digit c) eqn:E.
+    + destruct IH as (f & Hf & Hr). exists (c :: f). split; [constructor; assumption|].
+      cbn [app]. f_equal. exact Hr.
+    + exists []. split; [constructor|reflexivity].
+Qed.
+
+Lemma drop_digits_app : forall f z c r, all_digits f -> z = c :: r -> is_digit c = false ->
+  drop_digits (f ++ z) = z.
+Proof.
+  induction f as [|x f IH]; intros z c r Hf -> Hc.
+  - cbn [app drop_digits]. rewrite Hc. reflexivity.
+  - inversion Hf as [|? ? Hx Hf']; subst. cbn [app drop_digits]. rewrite Hx.
+    apply (IH _ c r Hf' eq_refl Hc).
+Qed.
+
+(* [time-secfrac] time-offset behind the seconds *)
+Lemma after_seconds_zone_iff : forall rest z off,
+  (after_seconds rest = Some z /\ zone_offset z = Some off) <->
+  (exists frac, frac_spec frac /\ zone_spec z off /\ rest = frac ++ z).
+Proof.
+  intros rest z off. split.
+  - intros [Ha Hz]. apply zone_offset_iff in Hz.
+    destruct rest as [|c r]; [discriminate Ha|].
+    unfold after_seconds in Ha.
+    destruct (N.eqb (bN c) 46) eqn:Ec.
+    + apply (bN_eqb_byte c x2e) in Ec. subst c.
+      destruct r as [|d r]; [discriminate Ha|].
+      destruct (is_digit d) eqn:Ed; [|discriminate Ha].
+      injection Ha as Ha. cbn [drop_digits] in Ha. rewrite Ed in Ha.
+      destruct (drop_digits_split r) as (f & Hf & Hr). rewrite Ha in Hr.
+      exists (x2e :: d :: f). split; [|split; [exact Hz|]].
+      * right. exists (d :: f). split; [discriminate|]. split; [constructor; assumption|reflexivity].
+      * cbn [app]. rewrite Hr at 1. reflexivity.
+    + injection Ha as <-. exists []. split; [left; reflexivity|]. split; [exact Hz|reflexivity].
+  - intros (frac & Hf & Hz & ->).
+    destruct (zone_spec_head z off Hz) as (c & r & Ez & Hd & Hp).
+    split; [|apply zone_offset_iff; exact Hz].
+    destruct Hf as [->|(f & Hne & Hf & ->)].
+    + cbn [app]. rewrite Ez. unfold after_seconds. rewrite Hp. reflexivity.
+    + destruct f as [|d f]; [congruence|].
+      cbn [app]. unfold after_seconds.
+      replace (N.eqb (bN x2e) 46) with true by reflexivity.
+      inversion Hf as [|? ? Hx Hf']; subst d f. rewrite Hx.
+      f_equal. apply (drop_digits_app (_ :: _) z c r Hf Ez Hd).
+Qed.
+
+(* the leap second test *)
+Lemma leap_second_test : forall ss x,
+  (negb (N.eqb ss 60) || Z.eqb (Z.modulo (Z.modulo x 1440 + 1440) 1440) 1439)%bool = true <->
+  (ss = 60%N -> (x mod 1440 = 1439)%Z).
+Proof.
+  intros ss x.
+  assert (E : (Z.modulo (Z.modulo x 1440 + 1440) 1440 = Z.modulo x 1440)%Z).
+  { pose proof (Z.mod_pos_bound x 1440 eq_refl) as B.
+    rewrite <- Z.add_mod_idemp_r by discriminate. rewrite Z.mod_same by discriminate.
+    rewrite Z.add_0_r. apply Z.mod_mod. discriminate. }
+  rewrite E.
+  destruct (N.eqb ss 60) eqn:Es; cbn [negb orb].
+  - apply N.eqb_eq in Es. rewrite Z.eqb_eq. split; [intros H _; exact H|intro H; exact (H Es)].
+  - apply N.eqb_neq in Es. split; [intros _ H; contradiction|reflexivity].
+Qed.
+
+Lemma fmt_date_length : forall y m d, length (fmt_date y m d) = 10.
+Proof. reflexivity. Qed.
+
+Theorem datetime_ok_iff : forall s, datetime_ok s = true <-> DateTime s.
+Proof.
+  intro s. split.
+  - intro H. unfold datetime_ok in H.
+    destruct (Nat.ltb (length s) 20) eqn:EL; [discriminate H|].
+    destruct (skipn 10 s) as [|t [|h1 [|h2 [|c1 [|m1 [|m2 [|c2 [|s1 [|s2 rest]]]]]]]]] eqn:ES;
+      try discriminate H.
+    match type of H with (if ?c then _ else _) = _ => destruct c eqn:EC; [|discriminate H] end.
+    repeat rewrite andb_true_iff in EC. destruct EC as [[[Ht Hc1] Hc2] Hd].
+    destruct (Formats.two_digits h1 h2 23) as [hh|] eqn:Ehh; [|discriminate H].
+    destruct (Formats.two_digits m1 m2 59) as [mi|] eqn:Emi; [|discriminate H].
+    destruct (Formats.two_digits s1 s2 60) as [ss|] eqn:Ess; [|discriminate H].
+    destruct (after_seconds rest) as [z|] eqn:EA; [|discriminate H].
+    destruct (zone_offset z) as [off|] eqn:EZ; [|discriminate H].
+    pose proof (proj1 (leap_second_test _ _) H) as Hleap.
+    destruct (proj1 (after_seconds_zone_iff rest z off) (conj EA EZ)) as (frac & Hfrac & Hzone & Hrest).
+    apply date_ok_iff in Hd. destruct Hd as (y & m & d & Hv & Hdate).
+    apply two_digits_some in Ehh, Emi, Ess.
+    destruct Ehh as [Lhh Ehh], Emi as [Lmi Emi], Ess as [Lss Ess].
+    apply (bN_eqb_byte c1 x3a) in Hc1. apply (bN_eqb_byte c2 x3a) in Hc2. subst c1 c2.
+    exists y, m, d, t, hh, mi, ss, frac, z, off.
+    split; [exact Hv|]. split.
+    { apply orb_true_iff in Ht. destruct Ht as [Ht|Ht].
+      - left. apply (bN_eqb_byte t x54). exact Ht.
+      - right. apply (bN_eqb_byte t x74). exact Ht. }
+    split; [exact Lhh|]. split; [exact Lmi|]. split; [exact Lss|].
+    split; [exact Hfrac|]. split; [exact Hzone|]. split; [exact Hleap|].
+    rewrite <- (firstn_skipn 10 s) at 1. rewrite ES, Hdate, Hrest, <- Ehh, <- Emi, <- Ess.
+    reflexivity.
+  - intros (y & m & d & t & hh & mi & ss & frac & z & off & Hv & Ht & Lhh & Lmi & Lss & Hfrac & Hzone & Hleap & ->).
+    unfold datetime_ok.
+    match goal with |- context [fmt_date y m d ++ ?x] => set (tl := x) end.
+    rewrite (firstn_app_exact (fmt_date y m d) tl 10 (fmt_date_length y m d)).
+    rewrite (skipn_app_exact (fmt_date y m d) tl 10 (fmt_date_length y m d)).
+    subst tl.
+    destruct (zone_spec_head z off Hzone) as (zc & zr & Ez & _ & _).
+    replace (Nat.ltb _ 20) with false.
+    2:{ symmetry. apply Nat.ltb_ge. rewrite app_length, fmt_date_length. unfold two. cbn [app length].
+        rewrite app_length, Ez. cbn [length]. lia. }
+    unfold two. cbn [app].
+    replace (N.eqb (bN x3a) 58) with true by reflexivity.
+    replace (N.eqb (bN t) 84 || N.eqb (bN t) 116)%bool with true
+      by (destruct Ht as [->| ->]; reflexivity).
+    replace (date_ok (fmt_date y m d)) with true
+      by (symmetry; apply date_ok_iff; exists y, m, d; split; [exact Hv|reflexivity]).
+    cbn [andb].
+    rewrite (two_digits_two hh 23 Lhh) by lia.
+    rewrite (two_digits_two mi 59 Lmi) by lia.
+    rewrite (two_digits_two ss 60 Lss) by lia.
+    destruct (proj2 (after_seconds_zone_iff (frac ++ z) z off)) as [EA EZ].
+    { exists frac. split; [exact Hfrac|]. split; [exact Hzone|reflexivity]. }
+    rewrite EA, EZ. apply leap_second_test. exact Hleap.
+Qed.
+
+Theorem datetime_ok_min_length : forall s, datetime_ok s = true -> 20 <= length s.
+Proof.
+  intros s H. unfold datetime_ok in H.
+  destruct (Nat.ltb (length s) 20) eqn:EL; [discriminate H|].
+  apply Nat.ltb_ge. exact EL.
+Qed.
+
+Theorem datetime_date_part : forall s, datetime_ok s = true -> date_ok (firstn 10 s) = true.
+Proof.
+  intros s H. unfold datetime_ok in H.
+  destruct (Nat.ltb (length s) 20); [discriminate H|].
+  destruct (skipn 10 s) as [|t [|h1 [|h2 [|c1 [|m1 [|m2 [|c2 [|s1 [|s2 rest]]]]]]]]];
+    try discriminate H.
+  match type of H with (if ?c then _ else _) = _ => destruct c eqn:EC; [|discriminate H] end.
+  apply andb_true_iff in EC. destruct EC as [_ Hd]. exact Hd.
+Qed.
+
+(* the same two facts read off the specification *)
+Corollary DateTime_min_length : forall s, DateTime s -> 20 <= length s.
+Proof. intros s H. apply datetime_ok_min_length. apply datetime_ok_iff. exact H. Qed.
+
+Corollary DateTime_date_part : forall s, DateTime s ->
+  exists y m d, valid_ymd y m d = true /\ firstn 10 s = fmt_date y m d.
+Proof.
+  intros s H. apply date_ok_iff. apply datetime_date_part. apply datetime_ok_iff. exact H.
+Qed.
+
+(* examples (string literals without importing String, whose [length] would shadow List.length) *)
+From Coq Require String.
+Import String.StringSyntax.
+Section DatetimeExamples.
+Local Open Scope string_scope.
+
+(* a second of 60 is accepted exactly as the last second of a day of UTC *)
+Example datetime_leap_second_utc_examples :
+  datetime_ok (of_string "2016-12-31T23:59:60Z") = true /\
+  datetime_ok (of_string "2016-12-31T15:59:60.7-08:00") = true /\
+  datetime_ok (of_string "2017-01-01T08:59:60+09:00") = true /\
+  datetime_ok (of_string "2016-12-31T23:59:60+01:00") = false.
+Proof. vm_compute. repeat split; reflexivity. Qed.
+
+(* the specification on its own, without the rule: witnesses for one text *)
+Example DateTime_witnesses : DateTime (of_string "2016-12-31T15:59:60.7-08:00").
+Proof.
+  exists 2016%N, 12%N, 31%N, x54, 15%N, 59%N, 60%N, [x2e; x37],
+         ([x2d] ++ two 8 ++ [x3a] ++ two 0), (- Z.of_N (8 * 60 + 0))%Z.
+  split; [reflexivity|]. split; [left; reflexivity|].
+  split; [lia|]. split; [lia|]. split; [lia|].
+  split; [right; exists [x37]; split; [discriminate|split; [repeat constructor|reflexivity]]|].
+  split; [apply ZoneMinus; lia|].
+  split; [intros _; reflexivity|reflexivity].
+Qed.
+
+(* and through the theorem: texts the specification excludes *)
+Example DateTime_refused :
+  ~ DateTime (of_string "2016-12-31T23:59:60+01:00") /\
+  ~ DateTime (of_string "2020-01-01T00:00:60Z") /\
+  ~ DateTime (of_string "2020-01-01T00:00:00.Z") /\
+  ~ DateTime (of_string "2020-01-01T00:00:00+24:00") /\
+  ~ DateTime (of_string "2021-02-29T00:00:00Z") /\
+  ~ DateTime (of_string "2020-01-01T00:00:00Zx") /\
+  ~ DateTime (of_string "2020-01-01T00:00:00.123Z9").
+Proof.
+  repeat split; intro H; apply datetime_ok_iff in H; vm_compute in H; discriminate H.
+Qed.
+End DatetimeExamples.
